@@ -7,3 +7,13 @@ func (p *PidLoop) ZZSetState(err, integral float64) {
 }
 
 func (p *PidLoop) ZZState() (float64, float64) { return p.error, p.integral }
+
+func zzTrim(s string) string {
+	for len(s) > 0 && s[len(s)-1] == '\n' {
+		s = s[:len(s)-1]
+	}
+	for len(s) > 0 && s[0] == '\n' {
+		s = s[1:]
+	}
+	return s
+}
